@@ -111,9 +111,12 @@ CHECKS = {
              'usize cursor shown strictly greater at the end of EVERY cycle header->header (cycles enumerated symbolically, inner '
              'loops widened under a monotonicity check, helper functions evaluated on their return paths with actual arguments, '
              'regex literals analysed for minimum match width, recursion handled by greatest-fixpoint hypotheses); (2) no '
-             'unwrap/expect consumes an input-dependent fallible producer; (3) no call-graph cycle (input-depth recursion).',
+             'unwrap/expect consumes an input-dependent fallible producer; (3) no call-graph cycle (input-depth recursion); (4) a byte '
+             'cursor stepped by a constant on a cycle that reads the text at it steps only past characters proven ASCII on that '
+             'path (literal match, range bound, is_ascii* or ASCII lookahead), so it stays on a character boundary.',
         note='Decides "never hangs in a scanner loop", "no panic from unwrapping an input-dependent failure" and "no unbounded '
-             'recursion"; does NOT decide absence of slicing/index panics in general nor that spans lie on char boundaries. '
+             'recursion", plus the constant-step instance of the char-boundary clause; does NOT decide absence of slicing/index '
+             'panics in general nor that every span lies on a char boundary. '
              '4 facts are trusted with reasons (rules/progress.py TRUSTED_FN/TRUSTED_POS) and reported in the evidence notes when used. '
              'One known finding (array nesting recursion). Trusted: ' + TB,
         technique='per-loop cursor-progress analysis on MIR (symbolic cycle enumeration + interprocedural return-path evaluation), deny-list value-flow for unwrap, call-graph SCCs',
@@ -122,7 +125,8 @@ CHECKS = {
         level='proof',
         text='Induction over the type closure: every workspace type reachable from YaccGrammar / StateTable has both codec impls, '
              'each stemming from the derive macro of the same name; the derived writer writes every field with the codec of '
-             'its own type (no skip / with); the same wincode configuration type is selected for writing and reading per '
+             'its own type (no skip / with) and every enum variant with its own constant tag, which the derived reader maps back '
+             'to that variant; the same wincode configuration type is selected for writing and reading per '
              'SerialisationFormat variant, for grammar and table alike. Thorough tier: the read side is taken from the MIR of '
              'every generated parser in the repository, and rustc itself witnesses the codec bounds for u8/u16/u32 x both '
              'configurations and the privacy of the fields (compile_fail doc-tests with compiling twins).',
@@ -135,7 +139,8 @@ CHECKS = {
         text='Every call that starts iterating a std HashMap/HashSet whose hasher type parameter is RandomState (read from '
              'the resolved generic arguments; FNV item sets and IndexMap are deterministic and are not sources) is '
              'classified by its consumer; anything that lets hash order reach an ordered result (Vec::push, index '
-             'allocation, first-match, formatting) is a violation unless it is one of 7 listed, individually justified sites. '
+             'allocation, first-match, formatting) is a violation unless it is one of 7 listed sites, each excusing named effects '
+             'only (all &mut arguments of calls in such a loop are examined; a Vec sorted after the loop is order-free). '
              'Thorough tier additionally checks in the MIR of the repository\'s own generated parsers that start-up data '
              'is obtained through OnceLock::get_or_init and that no static mut exists.',
         note='Necessary condition for run-to-run determinism of numbering, tables and generated code; not a proof of '
@@ -160,7 +165,8 @@ CHECKS = {
              'iterate-until-unchanged loops are found structurally; in each the change flag is reset once per round and '
              'otherwise only raised (never overwritten with a value that can be false), and every mutation of '
              'round-surviving state raises the flag, directly or through a test of its change result. Breaking either stops '
-             'the iteration before the least fixed point, i.e. gives sets that are too small.',
+             'the iteration before the least fixed point, i.e. gives sets that are too small. Also: every loop summary flag of '
+             'the analyses (all_done / cmplt / empty / only_reduces ...) moves only away from its initial value inside its loop.',
         note='A necessary condition for exactness and termination-at-the-fixed-point. That the transfer functions are right is NOT '
              'decided (on this tree FOLLOW ignores what follows a nullable neighbour - found by reading, invisible to these '
              'rules, documented in DESIGN.md §6); nor are reachability, sentence costs and minimal sentences. Trusted: ' + TB,
